@@ -95,7 +95,7 @@ func gen(t *rapid.T) Case {
 	c.Processors = rapid.IntRange(1, 3).Draw(t, "processors")
 	c.Trace = rapid.Bool().Draw(t, "runtime_trace")
 	ng := rapid.IntRange(2, 8).Draw(t, "goroutines")
-	kinds := []string{"end", "end", "end", "endts", "attrs", "attrs", "attrs", "event", "event", "link", "error", "status", "name", "isrec", "child", "child", "tracer", "regproc", "unregproc", "flush", "panicerror"}
+	kinds := []string{"end", "end", "end", "endts", "attrs", "attrs", "attrs", "event", "event", "link", "error", "status", "name", "isrec", "child", "child", "tracer", "regproc", "unregproc", "flush", "panicerror", "slowerror"}
 	if rapid.IntRange(0, 2).Draw(t, "rec_only_spans") == 0 {
 		c.RecOnly = rapid.IntRange(1, 1<<c.Spans-1).Draw(t, "rec_only")
 	}
@@ -265,6 +265,23 @@ type opRec struct {
 	tag        string
 	recAfter   bool         // IsRecording() observed right after the op (end ops)
 	child      trace.SpanID // child / racychild: the span the op started
+	// slowerror: clock instants inside the error's Error method, which the SDK
+	// calls while it holds the span's lock (0 = never called)
+	errEnter, errExit int64
+}
+
+// slowErr is an error whose Error method takes a while: the span's lock is
+// held meanwhile, so no End can complete in between.
+type slowErr struct {
+	clock *vk.Clock
+	rec   *opRec
+}
+
+func (e *slowErr) Error() string {
+	e.rec.errEnter = e.clock.Tick()
+	time.Sleep(300 * time.Microsecond)
+	e.rec.errExit = e.clock.Tick()
+	return "slow." + e.rec.tag
 }
 
 // reSink is a logr sink with every level enabled that uses the provider on
@@ -408,6 +425,7 @@ func runOnce(c Case) ([]vk.Violation, map[string]bool) {
 	// was issued (never = still registered at the end)
 	regEnd := map[*recProcessor]int64{}
 	unregStart := map[*recProcessor]int64{}
+	unregEnd := map[*recProcessor]int64{} // when the Unregister call returned
 
 	spans := make([]trace.Span, c.Spans)
 	ctxs := make([]context.Context, c.Spans)
@@ -449,6 +467,8 @@ func runOnce(c Case) ([]vk.Violation, map[string]bool) {
 				sp.AddLink(trace.Link{SpanContext: trace.NewSpanContext(trace.SpanContextConfig{TraceID: trace.TraceID{9}, SpanID: sid}), Attributes: kvs(op.N)})
 			case "error":
 				sp.RecordError(errors.New("err." + r.tag))
+			case "slowerror":
+				sp.RecordError(&slowErr{clock: clock, rec: r})
 			case "panicerror":
 				// a failing collaborator: the error's Error method panics (typed
 				// nil pointer) and the caller recovers; the span must stay usable
@@ -496,6 +516,9 @@ func runOnce(c Case) ([]vk.Violation, map[string]bool) {
 					unregStart[mine[g][n-1]] = clock.Tick()
 					xmu.Unlock()
 					tp.UnregisterSpanProcessor(mine[g][n-1])
+					xmu.Lock()
+					unregEnd[mine[g][n-1]] = clock.Tick()
+					xmu.Unlock()
 					mine[g] = mine[g][:n-1]
 				} else {
 					tp.UnregisterSpanProcessor(&recProcessor{clock: clock, ends: map[trace.SpanID][]delivery{}}) // never registered
@@ -600,8 +623,26 @@ func runOnce(c Case) ([]vk.Violation, map[string]bool) {
 			// rule by the thorough tier, one case in 370 000.)
 			re, ok := regEnd[x]
 			us, unreg := unregStart[x]
-			if ok && enders[s] > 0 && re < firstEndIssue[s] && (!unreg || us > lastEndReturn[s]) && n != 1 {
-				bad("registered_processor_missed_span", "span %d was delivered %d time(s) to extra processor %d although its RegisterSpanProcessor call had returned (t=%d) before the first End was issued (t=%d) and it was not unregistered before every End call had returned (t=%d)", s, n, xi, re, firstEndIssue[s], lastEndReturn[s])
+			// the earliest instant at which an End of this span can have marked
+			// it ended: not before the first End was issued, and not while a
+			// RecordError that got the span's lock before that was still
+			// inside its (slow) Error method
+			earliest := firstEndIssue[s]
+			for _, r := range recs {
+				if r.op.K == "slowerror" && r.op.S == s && r.errEnter > 0 && r.errEnter < firstEndIssue[s] && r.errExit > earliest {
+					earliest = r.errExit
+				}
+			}
+			if earliest > firstEndIssue[s] {
+				classes["End_held_up_behind_a_slow_RecordError"] = true
+			}
+			// ... and a processor whose Unregister had RETURNED by then was no
+			// longer registered when the span ended: it must not get it
+			if ue, done := unregEnd[x]; done && enders[s] > 0 && ue < earliest && n != 0 {
+				bad("unregistered_processor_got_span", "span %d was delivered %d time(s) to extra processor %d although its UnregisterSpanProcessor call had returned (t=%d) before any End of the span could have taken effect (t=%d)", s, n, xi, ue, earliest)
+			}
+			if ok && enders[s] > 0 && re < earliest && (!unreg || us > lastEndReturn[s]) && n != 1 {
+				bad("registered_processor_missed_span", "span %d was delivered %d time(s) to extra processor %d although its RegisterSpanProcessor call had returned (t=%d) before any End of the span could have taken effect (t=%d: first End issued at t=%d, held up behind a slow RecordError if later) and it was not unregistered before every End call had returned (t=%d)", s, n, xi, re, earliest, firstEndIssue[s], lastEndReturn[s])
 			}
 			if ok && enders[s] > 0 && re < firstEndIssue[s] {
 				classes["extra_processor_registered_before_end"] = true
